@@ -174,6 +174,7 @@ pub fn build(prop: &str, seed: u64, hist: u64, rng: &mut Rng, ids: &[String]) ->
         "C03" | "C07" | "C09" | "C10" | "C04" if rng.chance(5) => crate::script3::gen_maps(rng, np),
         "C13" if hist % 331 == 5 => crate::script3::gen_c13_limit(rng, np),
         "C13" => script::gen_c13(rng, np),
+        "C11" if rng.chance(12) => crate::script3::gen_maps(rng, np),
         "C11" if rng.chance(70) => crate::script2::gen_c11(rng, np),
         _ => script::generate(rng, np, &flags, depth),
     };
